@@ -13,6 +13,7 @@ import (
 	"net"
 	"os"
 	"strconv"
+	"strings"
 	"sync/atomic"
 	"time"
 	"unsafe"
@@ -104,6 +105,13 @@ type Net struct {
 	CloseYields bool
 	// PostYield makes the return of every transport operation a scheduling point (see block).
 	PostYield bool
+	// StallWrites: with this chance (percent) the thread that made a stream or datagram write
+	// loses the processor for 1..StallMaxMs simulated milliseconds when the call has returned
+	// (a slow or preempted thread: the peer may answer before it executes its next instruction).
+	// Stalled is the total so far: oracles that measure a caller's elapsed time allow for it.
+	StallWrites int
+	StallMaxMs  int
+	Stalled     time.Duration
 
 	K      *kernel.K
 	Stream StreamLink
@@ -128,6 +136,19 @@ func (n *Net) block(r *kernel.Req) {
 	n.K.Block(r)
 	if n.PostYield && !r.Aborted {
 		n.K.Yield(r.Site+"+ret", r.Obj)
+	}
+	if n.StallWrites > 0 && !r.Aborted && strings.HasSuffix(r.Site, ".Write") {
+		n.K.Lock()
+		hit := n.K.Env.IntN(100) < n.StallWrites
+		d := time.Duration(1+n.K.Env.IntN(max(n.StallMaxMs, 1))) * time.Millisecond
+		if hit {
+			n.Stalled += d
+			n.K.BumpLocked("fault.thread_stalled_after_write")
+		}
+		n.K.Unlock()
+		if hit {
+			n.K.Sleep(r.Site+"+stall", d)
+		}
 	}
 }
 
